@@ -7,7 +7,7 @@ import impl
 from impl import quiet, Panoptica_Statistic
 from common import VERIF, close, frac
 
-RULE = ("generated .tsv result tables: 1-4 groups x 1-6 metrics x 1-30 subjects, cells finite / nan / inf / -inf / empty in "
+RULE = ("values of every magnitude (1e-300 .. 9e16, negative: written with an exponent); statistics objects built in memory from Python ints, numpy integers, float32/64 scalars and None; generated .tsv result tables: 1-4 groups x 1-6 metrics x 1-30 subjects, cells finite / nan / inf / -inf / empty in "
         "random patterns incl. whole columns without a finite value; each table also with its rows permuted; summaries are "
         "queried before and after per-subject look-ups; non-trivial = a column with >= 2 finite and >= 1 non-finite entries")
 
@@ -97,8 +97,13 @@ def one_table(ctx, groups, metrics, subjects, table, src):
             ctx.count("across_groups_skipped_some_column_without_finite_value")
         for mi, m in enumerate(metrics):
             if all_cols_finite:
-                with quiet():
-                    ac = st.get_summary_across_groups()[m]
+                try:
+                    with quiet():
+                        ac = st.get_summary_across_groups()[m]
+                except Exception as e:
+                    ctx.violation(f"get_summary_across_groups() raised {type(e).__name__} although every column holds a finite value", inp,
+                                  key={"kind": "summary-raises"})
+                    break
                 avgs = [float(np.average([x for x in cols[(g, m)] if x is not None])) for g in groups]
                 want = (float(np.average(avgs)), float(np.std(avgs)), min(avgs), max(avgs))
                 got = (ac.avg, ac.std, ac.min, ac.max)
@@ -125,6 +130,60 @@ def check_lookup(ctx, inp, st, groups, metrics, subjects, cols):
                 return
 
 
+def constructed_case(ctx, tag, i):
+    """a statistics object built through the public constructor from in-memory lists: Python ints, numpy integers,
+    float32 scalars and None entries, as a caller that collects counts and scores by hand would pass them"""
+    rng = ctx.rng
+    groups = rng.sample(GROUPS, rng.randint(1, 3))
+    metrics = rng.sample(METRICS, rng.randint(1, 4))
+    n = rng.randint(2, 12)
+    subjects = [f"s{k}" for k in range(n)]
+    kinds = ["int", "npint", "f32", "float", "f64"]
+    vd, cols = {}, {}
+    for g in groups:
+        vd[g] = {}
+        for m in metrics:
+            kind = rng.choice(kinds + ["mixed"])
+            col_vals, col = [], []
+            for _ in range(n):
+                k2 = rng.choice(kinds) if kind == "mixed" else kind
+                if rng.random() < 0.2:
+                    col_vals.append(None)
+                    col.append(None)
+                    continue
+                base = rng.choice([rng.randint(0, 9), rng.randint(0, 8) / 8, rng.randint(0, 40) / 4])
+                v = {"int": lambda: int(base), "npint": lambda: np.int64(int(base)), "f32": lambda: np.float32(base),
+                     "float": lambda: float(base), "f64": lambda: np.float64(base)}[k2]()
+                col_vals.append(v)
+                col.append(float(v))
+            vd[g][m] = col_vals
+            cols[(g, m)] = col
+    inp = {"constructed": True, "groups": groups, "metrics": metrics, "subjects": subjects,
+           "values": {g: {m: [None if v is None else [type(v).__name__, float(v)] for v in vd[g][m]] for m in metrics} for g in groups}, "src": f"{tag}{i}"}
+    ctx.case(inp, True)
+    ctx.count("constructed_in_memory")
+    with quiet():
+        st = Panoptica_Statistic(subjects, vd)
+    for (g, m), col in cols.items():
+        fin = [x for x in col if x is not None]
+        if not fin:
+            continue
+        try:
+            with quiet():
+                sm = st.get_summary(g, m)
+            got = (sm.avg, sm.std, sm.min, sm.max)
+        except Exception as e:
+            ctx.violation(f"get_summary({g},{m}) on an in-memory statistics object raised {type(e).__name__} although the column holds finite values {fin[:5]}",
+                          inp, key={"kind": "summary-raises"})
+            continue
+        want = (float(np.average(fin)), float(np.std(fin)), min(fin), max(fin))
+        rel = 1e-5 if any(isinstance(v, np.float32) for v in vd[g][m]) else 1e-9       # numpy accumulates float32 lists in float32
+        if not (close(got[0], want[0], rel=rel) and close(got[1], want[1], rel=rel, abs_=1e-6 if rel > 1e-9 else 1e-9) and float(got[2]) == want[2] and float(got[3]) == want[3]):
+            ctx.violation(f"summary of {g}/{m} of an in-memory statistics object is {got}, but its finite values {fin[:6]}.. give {want}", inp,
+                          impl=[float(x) for x in got], model=want, key={"kind": "summary"})
+    check_lookup(ctx, inp, st, groups, metrics, subjects, cols)
+
+
 def rand_table(ctx, tag, i):
     rng = ctx.rng
     groups = rng.sample(GROUPS, rng.randint(1, 4))
@@ -143,7 +202,8 @@ def rand_table(ctx, tag, i):
             elif colmode[c] == "mixed" and rng.random() < 0.35:
                 row.append(rng.choice(NONFINITE))
             else:
-                row.append(rng.choice([rng.random(), rng.randint(0, 9) / 10, rng.randint(0, 5), rng.random() * 100, 0.9, 0.2]))
+                row.append(rng.choice([rng.random(), rng.randint(0, 9) / 10, rng.randint(0, 5), rng.random() * 100, 0.9, 0.2,
+                                       rng.random() * 1e-5, -rng.random() * 1e-4, 1.11e-16, 1e16 * rng.randint(1, 9), -0.25, -3.0, 2.5e-07, 1e-300]))
         table.append(row)
     cols = one_table(ctx, groups, metrics, subjects, table, f"{tag}{i}")
     # permuted rows: same summaries (checked against the oracle again on the permuted table)
@@ -158,6 +218,8 @@ def run(ctx):
     one_table(ctx, ["liver"], ["sq_dsc"], ["s0", "s1", "s2"], [[0.2], [0.9], [0.5]], "corpus.unsorted-no-missing")
     for i in range(ctx.scale(150, 1500)):
         rand_table(ctx, "rand", i)
+    for i in range(ctx.scale(80, 800)):
+        constructed_case(ctx, "mem", i)
 
 
 def search(ctx):
@@ -167,4 +229,8 @@ def search(ctx):
 
 def replay(ctx, rec):
     i = rec["input"]
+    if i.get("constructed"):
+        for k in range(200):
+            constructed_case(ctx, "replay", k)
+        return
     one_table(ctx, i["groups"], i["metrics"], i["subjects"], i["table"], "replay")
